@@ -134,14 +134,14 @@ def native_checks():
 
 
 def plan(tier, seed):
-    maxn = 3 if tier == 'quick' else 4
+    maxn = 4 if tier == 'quick' else 6
     obs = []
     for t in TEMPLATES:
         for n in range(1, maxn + 1):
-            if tier == 'quick' and n == 3 and t not in ('call_name', 'method_call', 'attr_chain', 'comprehension', 'fstring'):
+            if tier == 'quick' and n == 4 and t not in ('call_name', 'method_call', 'attr_chain', 'comprehension', 'fstring'):
                 continue
             obs.append(Ob(name=f'B_{t}_len{n}', factory='vt.props.c17:make_gate', spec={'template': t, 'n': n},
-                          params=[(f'a{i}', 0, UNI) for i in range(n)], budget={1: 60, 2: 120, 3: 400, 4: 2400}[n], group='B',
+                          params=[(f'a{i}', 0, UNI) for i in range(n)], budget={1: 60, 2: 120, 3: 300, 4: 600, 5: 1500, 6: 3000}[n], group='B',
                           require_tags=('rejected', 'accepted') if n == 3 and t in ('call_name', 'method_call') else (('rejected',) if n >= 2 or t not in ATTR_KINDS else ())))
     return {
         'obligations': obs,
@@ -254,6 +254,23 @@ def _native_main():
         if out[0] == 'ESCAPED' or events or (out[0] == 'value' and 'class' in repr(out[1]) and '__class__' not in repr(out[1])):
             bad.append([g, out, list(events)[:2]])
     emit('C_shadowing_and_fstrings[5]', not bad, bad)
+    # C5: names bound in one rule / parse / grammar are not visible to constants elsewhere, and builtins are not replaced by AST keys
+    bad = []
+    before = sorted(safe_builtins())
+    try:
+        tatsu.compile("start: user='alice' len='x' `{user}` ;\n", name='L1').parse('alice x')
+        v = tatsu.compile("start: 'q' `user` ;\n", name='L2').parse('q')
+        if v != ['q', 'user']:
+            bad.append(['constant `user` in a rule that does not bind it', repr(v)])
+        v = tatsu.compile("start: w='abc' n=`len(w)` ;\n", name='L3').parse('abc')
+        if v.get('n') != 3:
+            bad.append(['len(w) after a rule bound the name len', repr(v)])
+    except Exception as e:  # noqa: BLE001
+        bad.append(['exception', type(e).__name__ + ': ' + str(e)[:100]])
+    after = sorted(safe_builtins())
+    if after != before:
+        bad.append(['safe_builtins() changed by parsing', [x for x in after if x not in before]])
+    emit('C_context_does_not_leak_between_parses', not bad, bad)
     # C4: safe expressions still evaluate
     bad = []
     for e, want in [('1 + 2', 3), ("len('abc')", 3), ("max(1, 2)", 2), ("'a' + 'b'", 'ab'), ("abs(-3)", 3), ('7', 7)]:
